@@ -5,6 +5,9 @@ HERE = os.path.dirname(os.path.dirname(os.path.abspath(__file__)))
 ALL = ["C%02d" % i for i in range(1, 21)]
 
 CHECKS = {
+ "C04": dict(cat="exploration", tech="per-statement snapshot oracle (only the assigned variable may change) plus twin re-execution in a fresh interpreter rebuilt from the canonical pre-state",
+   text="Generated statement histories (assignments, derived sub-lists, amend / amend-in-depth on numeric, string, symbol and mixed nested lists, function definitions and calls, adverb expressions, repeated texts, module switch, dictionary literal in a function) run in a long-lived interpreter; after every statement the variable snapshot is compared with the pre-state and the statement is re-run in a fresh interpreter that shares no Python object with the first. Held on the histories observed.",
+   note="the canonical snapshot plus the function definition texts is taken to be the whole state; dictionary aliasing is C10's subject.", ref="DESIGN.md §4 C04"),
  "C08": dict(cat="exploration", tech="twin-interpreter differential monitor numpy vs torch(cpu) over generated numeric-core programs, four-configuration (backend x compiler on/off) localisation of divergences",
    text="Generated programs of the numeric core (depth<=3: arithmetic, comparison, min/max, negate, floor, reverse, reductions, scans, each, index, take/drop, join) over scalar/vector/matrix bindings run under both backends in fresh interpreters; canonical value (shape, integer/real kind, float32 tolerance) and normalised writer text are compared whenever both return, and compiler-only programs must be accepted by both. Held on the programs observed.",
    note="torch cpu float32; operands kept small so integer results stay exact in float32; nested/ragged operands excluded (object arrays).", ref="DESIGN.md §4 C08"),
